@@ -915,7 +915,23 @@ func c15Next(c *Ctx) {
 			}
 		})
 		okKey, detail := false, "no extractFromSlice(value, index, <path so far>, iter) call"
-		if sc, _ := CallOfValue(pathArg); sc != nil && MatchCC(&sc.Call, Spec{"strings", "Builder", "String"}) {
+		// ... or "." + strings.Join(segments[:i+1], "."): the prefix of the segments as they were split
+		if b, isB := Strip(pathArg).(*ssa.BinOp); pathArg != nil && isB && b.Op == token.ADD {
+			if dot, isS := ConstString(b.X); isS && dot == "." {
+				if jc, _ := CallOfValue(b.Y); jc != nil && MatchCC(&jc.Call, Spec{"strings", "", "Join"}) {
+					sep, isSep := ConstString(jc.Call.Args[1])
+					if sl, isSl := Strip(jc.Call.Args[0]).(*ssa.Slice); isSl && isSep && sep == "." && sl.Low == nil {
+						fromSplit := DerivesAny(sl.X, false, func(v ssa.Value) bool {
+							cl, _ := CallOfValue(v)
+							return cl != nil && MatchCC(&cl.Call, Spec{"strings", "", "Split"})
+						})
+						okKey = fromSplit
+						detail = fmt.Sprintf("\".\" + strings.Join(<segments as split>[:i+1], \".\"): %v", fromSplit)
+					}
+				}
+			}
+		}
+		if sc, _ := CallOfValue(pathArg); !okKey && sc != nil && MatchCC(&sc.Call, Spec{"strings", "Builder", "String"}) {
 			builder := sc.Call.Args[0]
 			nW := 0
 			okKey = true
